@@ -1,2 +1,63 @@
-(* C01 -- placeholder: component theorems are being built *)
-From Verif Require Import Base.GoInt.
+(* C01 (partial, proof level): json.Marshal is byte-for-byte encoding/json.Marshal -- the scalar core.
+   The reflection-driven encoder as a whole is decided by differential execution only; proved here, for EVERY
+   input, are the string escaping and the integer formatting that every encoder path ends in. *)
+From Verif Require Import Base.GoInt Json.Spec Json.ValidProofs Json.StrSpec Json.NumSpec
+  Json.StrEncProofs Json.StrSpecProofs Json.StrLinkProofs Json.NumProofs.
+
+(* encoder.encodeString (json/encode.go), MACHINE-TRANSLATED on every run (Generated/JsonStringGen.v; it calls the
+   translated escapeIndex / escapeByteRepr of Generated/JsonParseGen.v and the hand model of utf8.DecodeRuneInString
+   of Json/StrExt.v, tied to unicode/utf8 by the s.utf8dec cases): for every string (ill-formed UTF-8 included),
+   every flag word and every buffer it appends exactly the standard escaping selected by the EscapeHTML bit.
+   [std_escape] is an independent transcription of encoding/json's rule, tied to encoding/json by the s.esc cases. *)
+Theorem c01_encode_string_std : encode_string_std_statement.
+Proof. exact StrEncProofs.encode_string_std. Qed.
+
+(* json.AppendEscape / json.Escape (json.go; three lines of hand-written glue in Json/StrModel.v around the translated
+   encodeString, tied by the s.esc / s.escf cases): the result is the standard escaping *)
+Theorem c01_escape_string_std : escape_string_std_statement.
+Proof. exact StrEncProofs.escape_string_std. Qed.
+
+(* escapeIndex (json/string.go, machine-translated): -1 exactly when no byte needs an escape, otherwise a position at
+   or before the first such byte (all that encodeString needs; the documented exact index is refuted in C05) *)
+Theorem c01_escape_index : escape_index_statement.
+Proof. exact ValidProofs.escape_index_spec. Qed.
+
+(* the fast path of encodeString: when the translated escapeIndex answers -1 no byte needs an escape, and the standard
+   escaping is then the string between two quotes, which is what the early return writes *)
+Theorem c01_escape_fast_path : escape_fast_path_statement.
+Proof. exact StrEncProofs.escape_fast_path. Qed.
+
+(* about the specification itself: the standard escaping of any byte string is a string literal of the RFC 8259
+   grammar (Json/Grammar.v) and a complete JSON text *)
+Theorem c01_escape_is_json : escape_is_json_statement.
+Proof. exact StrSpecProofs.escape_is_json. Qed.
+
+(* ... and the standard unquoting reads it back as the string with every ill-formed byte replaced by U+FFFD *)
+Theorem c01_unquote_escape : unquote_escape_statement.
+Proof. exact StrSpecProofs.unquote_escape. Qed.
+
+(* replacing ill-formed bytes is idempotent: the output of the round trip is well-formed UTF-8 *)
+Theorem c01_sanitize_fixed : sanitize_fixed_statement.
+Proof. exact StrSpecProofs.sanitize_fixed. Qed.
+
+(* code-level round trip: the model of json.Unmarshal (translated parseStringUnquote inside) applied to what the
+   translated encodeString wrote returns the sanitized string *)
+Theorem c01_string_round_trip : string_round_trip_statement.
+Proof. exact StrLinkProofs.string_round_trip. Qed.
+
+(* formatInteger / appendInt / appendUint (json/int.go; HAND model Json/NumModel.v following the Go text, over the
+   machine-translated lookup table intLELookup; tied by the s.int.enc cases): the canonical decimal text of every
+   int64 and uint64. The package does not call strconv here. *)
+Theorem c01_append_int : append_int_statement.
+Proof. exact NumProofs.append_int_exact. Qed.
+Theorem c01_append_uint : append_uint_statement.
+Proof. exact NumProofs.append_uint_exact. Qed.
+
+(* the decimal text of the specification is the canonical one: optional minus sign, digits without a superfluous
+   leading zero, denoting the value *)
+Theorem c01_decimal_canonical : z_to_dec_canonical_statement.
+Proof. exact NumProofs.z_to_dec_canonical. Qed.
+
+(* every value of every Go integer type survives formatInteger followed by the typed decoder *)
+Theorem c01_int_round_trip : int_round_trip_statement.
+Proof. exact NumProofs.int_round_trip. Qed.
